@@ -13,6 +13,8 @@ PK.STATE / PK.REBUILD / PK.INDEPENDENT  (C17)
 """
 import ast
 
+from sa.astutil import ordn
+
 from sa import AnalysisError
 from sa.astutil import unparse, parents, in_block, enclosing
 from sa.cfg import build_cfg, EXC
@@ -1207,12 +1209,12 @@ def rule_pk_list_restore(ctx):
                     and isinstance(x.iter.func, ast.Attribute) and x.iter.func.attr in ("keys", "values", "items", "iterkeys", "dictview")
                     and isinstance(x.iter.func.value, ast.Name) and x.iter.func.value.id == "self"]
         # the instance state copied from the original must survive: a constructor call after the state was restored resets it
-        restores = [x.lineno for x in walk_shallow(dc.node) if isinstance(x, ast.Call) and isinstance(x.func, ast.Attribute)
+        restores = [ordn(x) for x in walk_shallow(dc.node) if isinstance(x, ast.Call) and isinstance(x.func, ast.Attribute)
                     and x.func.attr == "update" and ast.unparse(x.func.value).endswith("__dict__")]
-        restores += [x.lineno for x in walk_shallow(dc.node) if isinstance(x, ast.Assign) and any(
+        restores += [ordn(x) for x in walk_shallow(dc.node) if isinstance(x, ast.Assign) and any(
             isinstance(t, ast.Attribute) and t.attr == "__dict__" for t in x.targets)]
         inits = [x for x in walk_shallow(dc.node) if isinstance(x, ast.Call) and isinstance(x.func, ast.Attribute) and x.func.attr == "__init__"]
-        late = [x for x in inits if restores and x.lineno > min(restores)]
+        late = [x for x in inits if restores and ordn(x) > min(restores)]
         if late:
             ctx.bad("PK.LIST-RESTORE", site + ":state-order", dc, late[0], "`%s` runs after the instance state was copied: __init__ resets "
                     "mnemonic_transforms, so the copy of a case-normalised section compares mnemonics exactly (write() then appends a "
@@ -1314,6 +1316,33 @@ def rule_list_primitives(ctx):
         else:
             ctx.ok("SI.LIST-PRIMITIVES", site, fis[0] if fis else None, 0, "lasio/%s.py never applies list.* primitives to a section" % mod,
                    nontrivial=mod in ("reader", "las"))
+    # by-value primitives: HeaderItem/CurveItem are (empty) OrderedDicts, so every item == every other item; list.remove(x),
+    # list.index(x), list.count(x) on a section therefore address the FIRST item, whatever x is
+    byval = []
+    for q, fi in sorted(p.functions.items()):
+        if isinstance(fi.node, ast.Lambda):
+            continue
+        inside = fi.cls is not None and fi.cls.name == "SectionItems"
+        for c in walk_shallow(fi.node):
+            if not (isinstance(c, ast.Call) and isinstance(c.func, ast.Attribute) and c.func.attr in ("remove", "index", "count") and c.args):
+                continue
+            recv = ast.unparse(c.func.value)
+            arg = c.args[1] if recv == "list" and len(c.args) > 1 else c.args[0]
+            if isinstance(arg, ast.Constant) or recv.endswith("keys()") or recv.endswith("_keys") or "mnemonic" in recv:
+                continue
+            tail = recv.split(".")[-1].split("[")[0]
+            sectionish = tail in ("curves", "params", "well", "version", "other", "header") or "sections[" in recv or \
+                (inside and recv in ("self", "list", "super()"))
+            if not sectionish:
+                continue
+            byval.append((fi, c))
+    site = "lasio#by-value-primitives"
+    if byval:
+        f, c = byval[0]
+        ctx.bad("SI.LIST-PRIMITIVES", site, f, c, "`%s` in %s finds its item by `==`: header and curve items are OrderedDicts without entries, "
+                "so all of them compare equal and the first item of the section is addressed instead of the one meant" % (unparse(c), f.qual))
+    else:
+        ctx.ok("SI.LIST-PRIMITIVES", site, None, 0, "no section is searched by item equality (remove/index/count with an item operand)")
     ctx.floor("SI.LIST-PRIMITIVES", 3)
 
 
